@@ -245,6 +245,53 @@ def rule_lf5(repo, col):
                **({} if loops else {"construct": "def run", "function": "LFIProblem.run"}))
 
 
+def rule_lf6(repo, col):
+    """LFIProblem._process_atom: the mass left for the randomly initialised heads of an annotated disjunction is 1 - (sum of the explicit start values) - (sum of the fixed
+    probabilities), each summed over the heads WITH multiplicity (two heads that both start at 0.3 take 0.6)"""
+    c = repo.cls(LFI, "LFIProblem")
+    f = c.methods.get("_process_atom")
+    if f is None:
+        raise AnalysisError("LFIProblem._process_atom missing")
+    m = f.module
+    nf = [st for st in walk_no_nested(f.node) if isinstance(st, ast.Assign) and isinstance(st.value, ast.BinOp) and isinstance(st.value.op, ast.Div)
+          and isinstance(st.value.left, ast.BinOp) and norm(st.value.left).startswith("1.0 - ")]
+    if len(nf) != 1:
+        raise AnalysisError("_process_atom: normalisation of the random start weights not found")
+    terms = []
+    e = nf[0].value.left
+    while isinstance(e, ast.BinOp) and isinstance(e.op, ast.Sub):
+        terms.append(e.right)
+        e = e.left
+    if norm(e) != "1.0" or len(terms) != 2 or not all(isinstance(t_, ast.Name) for t_ in terms):
+        raise AnalysisError("_process_atom: remaining mass is not 1.0 - <start values> - <fixed>: %s" % norm(nf[0].value.left))
+    loops = [lp for lp in walk_no_nested(f.node) if isinstance(lp, ast.For) and norm(lp.iter) == "atoms" and lp.lineno < nf[0].lineno]
+    if len(loops) != 1:
+        raise AnalysisError("_process_atom: loop over the heads not found")
+    for t_ in terms:
+        nm = t_.id
+        aug = [st for st in ast.walk(loops[0]) if isinstance(st, ast.AugAssign) and isinstance(st.op, ast.Add) and norm(st.target) == nm]
+        other = [st for st in walk_no_nested(f.node) if isinstance(st, ast.Assign) and any(norm(x) == nm for x in st.targets) and st.lineno > loops[0].lineno and st.lineno < nf[0].lineno]
+        ok = bool(aug) and not other
+        why = "accumulated with += once per head"
+        if other:
+            v = other[-1].value
+            src_names = [x.id for x in ast.walk(v) if isinstance(x, ast.Name)]
+            sets = [st for st in walk_no_nested(f.node) if isinstance(st, ast.Assign) and isinstance(st.targets[0], ast.Name) and st.targets[0].id in src_names
+                    and (isinstance(st.value, ast.Set) or (isinstance(st.value, ast.Call) and dotted(st.value.func) in ("set", "frozenset")) or isinstance(st.value, ast.SetComp))]
+            lists = [st for st in walk_no_nested(f.node) if isinstance(st, ast.Assign) and isinstance(st.targets[0], ast.Name) and st.targets[0].id in src_names
+                     and (isinstance(st.value, (ast.List, ast.ListComp)) or (isinstance(st.value, ast.Call) and dotted(st.value.func) == "list"))]
+            if isinstance(v, ast.Call) and dotted(v.func) == "sum" and sets:
+                ok, why = False, "computed as %s over a set: equal values are counted once" % norm(v)
+            elif isinstance(v, ast.Call) and dotted(v.func) == "sum" and lists and not sets:
+                ok, why = True, "summed over a list with one entry per head"
+            else:
+                raise AnalysisError("_process_atom: computation of %s not understood: %s" % (nm, norm(v)[:60]))
+        col.decide("LF6", m, other[-1] if other else (aug[0] if aug else f.node), ok, "%s is summed over the heads with multiplicity" % nm,
+                   "_process_atom obtains %s %s: the mass reserved for the explicitly initialised heads must count every head - with t(0.3)::a; t(0.3)::b; t(_)::c only 0.3 is reserved, the "
+                   "random head starts with too much, the start weights sum to more than 1 and the first reported log-likelihood is above the attainable maximum (it then decreases)"
+                   % (nm, why), construct="_process_atom: %s not summed per head" % nm, function="LFIProblem._process_atom")
+
+
 def run(repo, col):
     col.rule("LF1", "expected counts: both accumulators weighted by the multiplicity, per index")
     col.rule("LF2", "new parameter = true-count / parent-count under the same index")
@@ -254,3 +301,5 @@ def run(repo, col):
     rule_lf1_lf3(repo, col)
     rule_lf4(repo, col)
     rule_lf5(repo, col)
+    col.rule("LF6", "start weights: reserved mass summed over the heads with multiplicity")
+    rule_lf6(repo, col)
